@@ -118,6 +118,14 @@ def gen_cases(rng, tier):
         for ln in (0, 1, (w * h) % 2**32, 65536, 7):
             if ln <= 70000:
                 add([35, ln, w, h])
+    # NonZeroRect::from_xywh: boundary values, and positive sizes that the position absorbs (x + w == x in binary32)
+    for t in itertools.product(ft[::2], repeat=4):
+        add([36] + list(t))
+    for i in range(200 if tier == "quick" else 2000):
+        big = rng.choice([16777216.0, 1.0e8, 33554432.0, -1.0e8, 3.0e38, 8388608.0])
+        tiny = rng.choice([0.5, 1.0, 0.25, 1.0e-3, 2.0, 4.0])
+        x, y, w, h = rng.choice([(big, 0.0, tiny, 1.0), (0.0, big, 1.0, tiny), (big, big, tiny, tiny), (big, 1.0, tiny * 64, 1.0)])
+        add([36, f2b(x), f2b(y), f2b(w), f2b(h)])
     # StrokeDash::new (the suite, model and oracle are C07's): random arrays, float extremes, and offsets that are exact
     # multiples of the period, where the normalised offset must land in [0, interval_len)
     for i in range(1500 if tier == "quick" else 20000):
@@ -193,6 +201,10 @@ def oracle(suite, args, out):
             return "%s returned %s but the documented guarantees %s" % ("from_ltrb", "None" if none else "Some", "hold" if doc else "do not hold")
         if not none and o != [x if not (x == NZERO and False) else x for x in a]:
             return "constructor changed its arguments"
+        return None
+    if k == 36:
+        if not none and not valid_rect_bits(o, strict=True) and not in_band(o):
+            return "NonZeroRect::from_xywh returned a rectangle whose width or height is not positive: %r" % [b2f(v) for v in o]
         return None
     if k == 2:
         if not none and not valid_rect_bits(o) and not in_band(o):
